@@ -529,8 +529,8 @@ def enumerate_faults(scn, rec, tier):
             faults.append(d)
         if name == "write" and fd_of(ev) >= 3:
             err("ENOSPC")
-            err("EIO")
             if pos in picked:
+                err("EIO")
                 err("EINTR")
                 err("EDQUOT")
                 err("ENOSPC", True)
@@ -764,7 +764,7 @@ def uniq(xs):
 MODES = [0o644, 0o444, 0o600, 0o755, 0o640, 0o400, 0o664, 0o666, 0o744]
 OPTSETS = [[], ["-c"], ["-c"], ["-s"], ["-s", "-c"], ["--tab"], ["--indent", "1"], ["-S", "-c"], ["-r"], ["-j"],
            ["--to", "yaml"], ["--to", "cbor"], ["-c", "-n"], ["--to", "json", "-c"]]
-FILTERS_ANY = [".", "[.]", "[., .]", "empty", "tojson", "length", "., .", "{v: .}", "type", "[.] | tojson | length"]
+FILTERS_ANY = [".", "[.]", "[., .]", "empty", "tojson", "tostring", "., .", "{v: .}", "type", "[.] | tojson | length"]
 
 
 def random_scenario(rng, idx):
@@ -811,7 +811,7 @@ def random_scenario(rng, idx):
             files[j]["content"] = {"rep": ["\"", rng.choice(["ab ", "xyz", "0"]), 1100000 // 3 + rng.randrange(0, 9000),
                                            "\"\n%d\n" % vals[j][0]]}
             files[j]["rel"] = files[j]["rel"].replace(".json", "-big.json")
-            filt = rng.choice([".", "length", "[., 1]", "empty", "., 0"])
+            filt = rng.choice([".", "tostring | length", "[., 1]", "empty", "., 0"])
             if "-r" in opts or "-j" in opts or "--to" in opts:
                 opts = ["-c"]
     else:
@@ -999,7 +999,7 @@ def main():
         rng = run.rng("scenarios")
         scenarios = quick_scenarios(rng)
         if run.tier == "thorough":
-            nrand = run.size(0, 190)
+            nrand = run.size(0, 250)
             scenarios += [random_scenario(run.rng("rand", i), i) for i in range(nrand)]
         stats, distinct, samples, base_samples = run_all(run, scenarios)
         cov = {"evaluations": stats["evaluations"], "distinct_nontrivial": len(distinct), "rule": RULE,
